@@ -141,6 +141,10 @@ def time_grid(desc):
         # sqrt-spaced grid with a short end time: consecutive increments differ by 2e-3/600^2 = 5.6e-9 (a lagged or
         # cached time increment is invisible to "close enough" comparisons but not to the step residual)
         return np.linspace(0.0, np.sqrt(1e-3), 601) ** 2
+    if kind == "offset":
+        # a late time origin with small steps (t/dt ~ 1e9): the increment t[i+1] - t[i] is exact in floats (Sterbenz), any
+        # reformulation that scales or shifts the times before subtracting is not
+        return 1e6 + np.linspace(0.0, np.sqrt(2.0), 41) ** 2
     raise KeyError(kind)
 
 
